@@ -88,6 +88,41 @@ CHECKS.update({
         "note": STORE_NOTE + " The recorder sees libc calls only. Absence of truncate/rename in all executions is monitored, not proved.",
         "technique": "Coq-proved trace monitor evaluated on recorded real traces + trace correspondence with the model",
     },
+    "C03": {
+        "text": "Crash-point enumeration from recorded real traces plus partial Coq proof: every workload runs on the real store "
+                "under an LD_PRELOAD recorder; every prefix of the recorded mutating calls (every call boundary, and byte cuts "
+                "inside writes) is materialised as a directory and opened by the real code, which must succeed and read, key by "
+                "key, the acknowledged state with the operation in flight applied or not; the recorded trace is compared per "
+                "operation with the model's. Proved in Coq: recoverability to the acknowledged state at every operation boundary "
+                "of every script (merges included), atomicity of set/delete (one append; before = without, after = with), "
+                "recovery only creates a file. Not yet proved: crash points inside a merge pass and the byte-level prefix lemma.",
+        "design_ref": "DESIGN.md section 8, C03", "note": STORE_NOTE + " Crash model: a killed process leaves a prefix of its calls, "
+                "cut at any byte of the last write.",
+        "technique": "Coq proof (operation boundaries, set/delete atomicity) + exhaustive crash-image enumeration on recorded traces",
+    },
+    "C09": {
+        "text": "Power-loss image enumeration from recorded real traces under sync=always plus partial Coq proof: for every prefix of "
+                "the recorded calls, directory images in which every file is cut independently to a length between its last "
+                "fsync and its current length (creations/removals persistent) are opened by the real code and read against the "
+                "acknowledged state. Proved in Coq: a set/delete under sync=always is write-then-fsync of the same file before "
+                "anything else; the merge loop emits no unlink (all removals follow the final fsyncs); recoverability at operation "
+                "boundaries. Not yet proved: the theorem over all power-cut images inside a merge.",
+        "design_ref": "DESIGN.md section 8, C09", "note": STORE_NOTE + " fsync = everything written so far to that file is durable "
+                "(assumption about the OS); no directory fsync is modelled because the property grants persistent creations/removals.",
+        "technique": "Coq proof (fsync ordering in model traces) + power-cut image enumeration on recorded traces",
+    },
+    "C20": {
+        "text": "One-fault sweep on the real store (level fault_enumeration) plus partial Coq proof: each workload is re-run once per "
+                "sampled (quick) or every (thorough) create/write/fsync/unlink position with that call failing (ENOSPC/EIO, no "
+                "effect); the operation the fault hit must report an error, every other operation must succeed, and every key is "
+                "read in the running process and again after a restart against the map with the failed operation applied or not. "
+                "Proved in Coq (fault-free model): ids are consumed before creation and never reused, the writer's file is always "
+                "the newest hint-less file, a stale writer rolls over before appending. The fault-aware engine model is not built.",
+        "design_ref": "DESIGN.md section 8, C20", "note": "Faults are all-or-nothing per call, one per run. The injector sees libc "
+                "calls on *.bitcask.* files. Theorems cover only the id discipline of the fault-free model.",
+        "technique": "exhaustive single-fault injection (LD_PRELOAD) + Coq proof of the id discipline",
+        "category": "fault_enumeration",
+    },
     "C19": {
         "text": "Machine-checked proof that in every reachable crash-free state each file's live/dead/dead-bytes counters equal "
                 "ground truth computed from the files and the index, that a counter row exists exactly for files holding "
@@ -115,7 +150,7 @@ def manifest():
             "evidence_file": "evidence/%s.json" % pid,
             "replay_cmd_template": "bin/check %s --replay {path}" % pid,
             "engine": "coq-model+harness",
-            "level_claimed": {"category": "proof", "text": c["text"], "design_ref": c["design_ref"]},
+            "level_claimed": {"category": c.get("category", "proof"), "text": c["text"], "design_ref": c["design_ref"]},
             "level_note": c["note"],
             "technique": c["technique"],
         })
